@@ -967,7 +967,7 @@ pub fn run(args: &[String]) -> i32 {
     let tree = arg(args, "--tree").expect("--tree");
     let n = read_ndjson(path).len();
     let jobs = (arg_u64(args, "--jobs", 8) as usize).clamp(1, n.max(1));
-    let exe = std::env::current_exe().expect("current_exe");
+    let exe = crate::util::self_exe();
     let http = args.iter().any(|a| a == "--http");
     let handles: Vec<_> = (0..jobs)
         .map(|j| {
